@@ -6,7 +6,34 @@ from mirsym.check import run_check
 import props
 
 
+def _stop(signum, frame):
+    """SIGTERM / SIGINT (e.g. from `timeout`): stop every exploration process of this check and remove its scratch data."""
+    import shutil
+    import signal
+    if os.getpid() != MAIN_PID:
+        os._exit(143)
+    from mirsym import engine
+    for d in list(engine.LIVE_OUTDIRS):
+        shutil.rmtree(d, ignore_errors=True)
+    signal.signal(signal.SIGTERM, signal.SIG_IGN)
+    try:
+        os.killpg(os.getpgrp(), signal.SIGTERM)
+    except Exception:
+        pass
+    os._exit(143)
+
+
+MAIN_PID = os.getpid()
+
+
 def main():
+    import signal
+    try:
+        os.setpgrp()
+    except Exception:
+        pass
+    signal.signal(signal.SIGTERM, _stop)
+    signal.signal(signal.SIGINT, _stop)
     prop = sys.argv[1]
     tier = sys.argv[2] if len(sys.argv) > 2 else os.environ.get("VERIF_TIER", "quick")
     if prop not in props.PROPS:
